@@ -6,7 +6,7 @@
 From Coq Require Import ZArith List.
 From V Require Import Valid.Hier Valid.Walk Valid.FlatRegion Valid.Run.
 From Coq Require Import Lia.
-From V Require Import Model.Pipe Model.PipeBounded Model.PipeBounded4 Model.Graph Model.Edits Model.JoinPath.
+From V Require Import Model.Pipe Model.PipeBounded Model.PipeBounded4 Model.Graph Model.Edits Model.Edits2 Model.JoinPath Model.Refine Model.CbPath.
 
 Theorem C01_checker_sound :
   forall rw g h, c01_check rw g h = true -> PathEq rw g h.
@@ -61,6 +61,52 @@ Theorem C01_closing_preserves_paths :
 Proof. exact join_returns_path_eq. Qed.
 Print Assumptions C01_closing_preserves_paths.
 
+(* header unification, for ALL graphs (no bound): insert_block_and_control_blocks keeps every walk.
+   Over the model Edits2.insert_cb (tied to the code by the order-exact correspondence of C14 and by
+   the pipeline model): for every flat graph of original and synthetic blocks whose targets exist,
+   every choice of predecessors that are not branching synthetic blocks (distinct successors),
+   successors S among the blocks, fresh assignment names, a fresh head and a control variable no
+   block mentions: from every original block, under every decision list and every pair of
+   environments that agree outside the new variable, the flat walk of the edited graph visits the
+   same original blocks in the same order and ends the same way *)
+Theorem C01_header_unification_preserves_paths :
+  forall g top new var preds Ss names cls g',
+    NoDup preds /\ ~ In new preds ->
+    (NoDup names /\ forall a, In a names ->
+        efind g a = None /\ a <> new /\ ~ In a preds /\ ~ In a Ss /\ a <> top) ->
+    (forall p b, In p preds -> efind g p = Some b ->
+        NoDup (e_jt b) /\ (forall a, In a names -> ~ In a (e_jt b)) /\ (forall c v t, e_kind b <> EBranch c v t)) ->
+    ~ In top (ekeys g) /\ top <> new ->
+    efind g new = None ->
+    (forall x b t, efind g x = Some b -> In t (e_jt b) -> In t (ekeys g)) ->
+    (forall s, In s Ss -> In s (ekeys g)) ->
+    (forall x b, efind g x = Some b ->
+        match e_kind b with
+        | EAssign a => forall p, In p a -> fst p <> var
+        | EBranch _ v _ => v <> var
+        | EPlain _ => True
+        end) ->
+    insert_cb g new var preds Ss names cls = Ok g' ->
+    forall n e e' ds tr st,
+      (exists b, efind g n = Some b /\ e_kind b = EPlain 100) ->
+      E (Fv var) e e' ->
+      WTrace (ehier top g) (resolve_flat (ehier top g)) false n e ds tr st ->
+      WTrace (ehier top g') (resolve_flat (ehier top g')) false n e' ds tr st.
+Proof. exact insert_cb_keeps_walks. Qed.
+Print Assumptions C01_header_unification_preserves_paths.
+
+(* the generic reason (Model/Refine.v): an edit keeps every walk when each old block keeps its kind and
+   arity and each way of leaving it leads, through a bridge that only touches fresh variables, to the
+   block it led to before *)
+Theorem C01_refinement_keeps_walks :
+  forall h h' r r' (F : Z -> Prop) (Old : name -> Prop),
+    (forall x, Old x -> exists b b', find h x = Some b /\ find h' x = Some b' /\ Compat h' r r' F Old x b b') ->
+    forall n e ds tr st, WTrace h r false n e ds tr st ->
+    forall e', Old n -> (exists b p, find h n = Some b /\ n_kind b = KOrig p) -> E F e e' ->
+    WTrace h' r' false n e' ds tr st.
+Proof. exact walk_refines. Qed.
+Print Assumptions C01_refinement_keeps_walks.
+
 Import ListNotations.
 (* non-vacuity: 1 -> (2, 3), 2 and 3 return; fresh name 9, top region 8: the graph is closed and its
    hypotheses hold (evaluated), and the verified checker agrees on the result *)
@@ -68,3 +114,38 @@ Example C01_closing_example :
   let g := [(1, mkE [2; 3] [] (EPlain 100)); (2, mkE [] [] (EPlain 100)); (3, mkE [] [] (EPlain 100))]%Z in
   exists g', join_returns g 9%Z 3%Z = Ok g' /\ oentry (og g) = Some 1%Z /\ c01_check false (og g) (ehier 8%Z g') = true.
 Proof. eexists. split; [vm_compute; reflexivity|]. split; vm_compute; reflexivity. Qed.
+
+Local Open Scope Z_scope.
+(* non-vacuity of C01_header_unification_preserves_paths: two entries 1, 2 into the blocks 3 and 4,
+   unified behind the head 9 with the control variable 7; all hypotheses hold, so every walk is kept *)
+Example C01_header_unification_example :
+  let g := [(1, mkE [3; 4] [] (EPlain 100)); (2, mkE [4] [] (EPlain 100));
+            (3, mkE [4] [] (EPlain 100)); (4, mkE [3] [] (EPlain 100))]%Z in
+  exists g', insert_cb g 9 7 [1; 2] [3; 4] [20; 21; 22] 11 = Ok g' /\
+    forall n e e' ds tr st,
+      (exists b, efind g n = Some b /\ e_kind b = EPlain 100) -> E (Fv 7) e e' ->
+      WTrace (ehier 99 g) (resolve_flat (ehier 99 g)) false n e ds tr st ->
+      WTrace (ehier 99 g') (resolve_flat (ehier 99 g')) false n e' ds tr st.
+Proof.
+  cbv zeta. eexists. split; [vm_compute; reflexivity|].
+  assert (Hf : forall x b, efind [(1, mkE [3; 4] [] (EPlain 100)); (2, mkE [4] [] (EPlain 100));
+                                  (3, mkE [4] [] (EPlain 100)); (4, mkE [3] [] (EPlain 100))] x = Some b ->
+               (x = 1 /\ b = mkE [3; 4] [] (EPlain 100)) \/ (x = 2 /\ b = mkE [4] [] (EPlain 100)) \/
+               (x = 3 /\ b = mkE [4] [] (EPlain 100)) \/ (x = 4 /\ b = mkE [3] [] (EPlain 100))).
+  { intros x b. unfold efind. cbn [zassoc].
+    destruct (Z.eqb_spec x 1); [intros [= <-]; auto|]. destruct (Z.eqb_spec x 2); [intros [= <-]; auto|].
+    destruct (Z.eqb_spec x 3); [intros [= <-]; auto|]. destruct (Z.eqb_spec x 4); [intros [= <-]; auto 6|discriminate]. }
+  apply (C01_header_unification_preserves_paths _ 99 9 7 [1; 2] [3; 4] [20; 21; 22] 11).
+  - split; [repeat constructor; cbn; intuition lia|cbn; intuition lia].
+  - split; [repeat constructor; cbn; intuition lia|].
+    intros a Ha. cbn in Ha. destruct Ha as [<-|[<-|[<-|[]]]]; (split; [reflexivity|]); cbn; intuition lia.
+  - intros p b Hp Hb. destruct (Hf p b Hb) as [[-> ->]|[[-> ->]|[[-> ->]|[-> ->]]]]; cbn in Hp;
+      try (exfalso; intuition lia); (split; [repeat constructor; cbn; intuition lia|]);
+      (split; [intros a Ha; cbn in Ha |- *; intuition lia|intros; discriminate]).
+  - split; [cbn; intuition lia|lia].
+  - reflexivity.
+  - intros x b t Hb Ht. destruct (Hf x b Hb) as [[-> ->]|[[-> ->]|[[-> ->]|[-> ->]]]]; cbn in Ht |- *; intuition lia.
+  - intros s Hs. cbn in Hs |- *. intuition lia.
+  - intros x b Hb. destruct (Hf x b Hb) as [[-> ->]|[[-> ->]|[[-> ->]|[-> ->]]]]; exact I.
+  - vm_compute. reflexivity.
+Qed.
